@@ -596,6 +596,8 @@ func (p dcPkg) testSource() string {
 				fmt.Fprintf(b, "\t\tvar nilMap %s\n\t\tif o := nilMap.DeepCopyObject(); o != nil {\n\t\t\tt.Errorf(\"VT-FAIL DeepCopyObject of a nil %s is not nil: %%#v\", o)\n\t\t}\n", ty.Name, ty.Name)
 			default:
 				b.WriteString("\t\tif o := (&orig).DeepCopyObject(); o == nil {\n\t\t\tt.Errorf(\"VT-FAIL DeepCopyObject returned nil\")\n\t\t}\n")
+				// the copy of nil is nil, also through DeepCopyObject
+				fmt.Fprintf(b, "\t\tfunc() {\n\t\t\tdefer func() {\n\t\t\t\tif p := recover(); p != nil {\n\t\t\t\t\tt.Errorf(\"VT-FAIL DeepCopyObject of a nil *%s panics: %%v\", p)\n\t\t\t\t}\n\t\t\t}()\n\t\t\tnilPtr := &orig\n\t\t\tnilPtr = nil\n\t\t\tif o := nilPtr.DeepCopyObject(); o != nil {\n\t\t\t\tt.Errorf(\"VT-FAIL DeepCopyObject of a nil *%s is not nil: %%#v\", o)\n\t\t\t}\n\t\t}()\n", ty.Name, ty.Name)
 			}
 		}
 		b.WriteString("\t}\n")
